@@ -4,7 +4,7 @@ export GOFLAGS=-mod=mod GOPROXY=off GOSUMDB=off GOTOOLCHAIN=local
 wt=/tmp/allchk_wt
 git -C /repo worktree remove --force $wt >/dev/null 2>&1; rm -rf $wt
 git -C /repo worktree add --detach $wt HEAD -q || exit 2
-props=${*:-$(python3 -c "import json;print(' '.join(sorted({k.split('.')[0] for k in json.load(open('/verif/obligations.json')).keys()} if isinstance(json.load(open('/verif/obligations.json')),dict) else [])))" 2>/dev/null)}
+props=${*:-$(python3 -c "import json;print(\" \".join(sorted(json.load(open(\"/verif/obligations.json\")).keys())))")}
 for p in $props; do
   /verif/bin/govc check --property $p --repo $wt --out /tmp/allchk_out > /tmp/allchk_$p.log 2>&1
   echo "$p exit=$? $(grep -E 'VIOLATION|obligations,' /tmp/allchk_$p.log | cut -c1-260 | tr '\n' ' ')"
